@@ -1268,7 +1268,9 @@ VmTrap vm_core_execute(VmState *vm) {
                                   (long long)idx64, alen);
             }
             uint32_t idx = (uint32_t)idx64;
+            NanoValue removed = arr.as.array->elements[idx];
             vm_array_remove(arr.as.array, idx);
+            vm_release(&vm->heap, removed);   /* the array owned this reference */
             stack_push(vm, arr);
             break;
         }
